@@ -17,6 +17,72 @@ pub enum Case {
     Scale { ty: usize, scale: String },
 }
 
+/// `n` random strings, each looked up in every type.  Returns the number of
+/// strings tried and the first wrong answer (type, string, message).
+fn symbol_sweep(n: u64) -> (u64, Option<(usize, String, String)>) {
+    use std::collections::HashSet;
+    use std::sync::atomic::{AtomicBool, Ordering};
+    use std::sync::Mutex;
+    let c = ctx();
+    let tys = all_types();
+    let declared: Vec<HashSet<&'static str>> =
+        tys.iter().map(|&ty| c.models[ty].row.units.iter().map(|u| u.symbol).collect()).collect();
+    const ALPHA: &[u8] = b"abcdefghijklmnopqrstuvwxyzABCDEFGHIJKLMNOPQRSTUVWXYZ0123456789/ ";
+    let seed: u64 = std::env::var("VERIF_SEED").ok().and_then(|s| s.parse().ok()).unwrap_or(1);
+    let threads = std::thread::available_parallelism().map_or(4, |x| x.get()) as u64;
+    let per = n / threads + 1;
+    let stop = AtomicBool::new(false);
+    let first: Mutex<Option<(usize, String, String)>> = Mutex::new(None);
+    std::thread::scope(|sc| {
+        for th in 0..threads {
+            let (tys, declared, stop, first) = (&tys, &declared, &stop, &first);
+            sc.spawn(move || {
+                // a different stream in every build of the harness
+                let build = crate::hist::mix_str(crate::amt::BACKEND) ^ (cfg!(debug_assertions) as u64);
+                let mut x: u64 = crate::hist::mix(&[seed, th, 0xc09, build]) | 1;
+                let mut buf = String::with_capacity(12);
+                for i in 0..per {
+                    if i % 4096 == 0 && stop.load(Ordering::Relaxed) {
+                        return;
+                    }
+                    // xorshift64*
+                    x ^= x >> 12;
+                    x ^= x << 25;
+                    x ^= x >> 27;
+                    let mut r = x.wrapping_mul(0x2545_f491_4f6c_dd1d);
+                    let len = 3 + (r & 7) as usize; // 3..=10 characters
+                    r >>= 3;
+                    buf.clear();
+                    for _ in 0..len {
+                        buf.push(ALPHA[(r & 63) as usize] as char);
+                        r = r.rotate_right(6) ^ (r >> 29);
+                    }
+                    for (k, &ty) in tys.iter().enumerate() {
+                        if declared[k].contains(buf.as_str()) {
+                            continue;
+                        }
+                        let t = c.ty(ty);
+                        let (g1, g2) = ((t.unit_from_symbol)(&buf), (t.from_symbol)(&buf));
+                        if g1.is_some() || g2.is_some() {
+                            stop.store(true, Ordering::Relaxed);
+                            let mut f = first.lock().unwrap();
+                            if f.is_none() {
+                                *f = Some((ty, buf.clone(), format!(
+                                    "{}: unit_from_symbol({:?}) = {:?}, from_symbol = {:?}; no unit of the type has that symbol",
+                                    c.models[ty].row.name, buf, g1, g2
+                                )));
+                            }
+                            return;
+                        }
+                    }
+                }
+            });
+        }
+    });
+    let f = first.into_inner().unwrap();
+    (per * threads, f)
+}
+
 fn all_types() -> Vec<usize> {
     ctx().types_of(&[Kind::Ref, Kind::NoRef, Kind::Single, Kind::Amount])
 }
@@ -287,7 +353,7 @@ impl Property for C09 {
         "C09"
     }
     fn rule(&self) -> String {
-        "enumerated per type (catalogue, AmountT, astronomical, synthetic with ties / reference unit not first / no reference unit / single unit): iteration order of iter() and iter_units() against the order demanded by the statement computed from the independent table (exact scale, reference unit first at scale one, declaration order; name order without reference unit), every constant denotes a distinct variant named after its identifier, one reference unit of scale one, as_qty, lookups by every declared symbol and scale. Random: lookups by mutated symbols (case flips, one-character edits with look-alikes such as Greek mu for the micro sign, added blanks, prefixes, doubled, foreign symbols, random Unicode) and perturbed scales (+-1 ulp, negated, foreign, random) against a linear scan over the required order. Non-trivial: registry checks; lookups expected to miss or to pick a tie winner".into()
+        "enumerated per type (catalogue, AmountT, astronomical, synthetic with ties / reference unit not first / no reference unit / single unit): iteration order of iter() and iter_units() against the order demanded by the statement computed from the independent table (exact scale, reference unit first at scale one, declaration order; name order without reference unit), every constant denotes a distinct variant named after its identifier, one reference unit of scale one, as_qty, lookups by every declared symbol and scale. Random: lookups by mutated symbols (case flips, one-character edits with look-alikes such as Greek mu for the micro sign, added blanks, prefixes, doubled, foreign symbols, random Unicode) and perturbed scales (+-1 ulp, negated, foreign, random) against a linear scan over the required order. Mass lookup: 16 million (quick) / 100 million (thorough) random strings of 3-10 characters per build, each looked up in every type through both entry points and expected to find nothing (a lookup that compares digests of symbols answers a foreign string once in 2^32 / (number of units) tries). Non-trivial: registry checks; lookups expected to miss or to pick a tie winner".into()
     }
     fn tape_len(&self) -> usize {
         16
@@ -307,11 +373,31 @@ impl Property for C09 {
         }
         run_json_with::<Case>(case, check)
     }
-    fn exhaustive(&self, sink: &mut Sink, _tier: Tier) -> bool {
+    fn exhaustive(&self, sink: &mut Sink, tier: Tier) -> bool {
         let c = ctx();
         for ty in all_types() {
             let v = catch(|| check_type(ty)).unwrap_or_else(|p| Verdict::Fail(format!("panic: {}", p)));
             sink.record(json!({"registry": ty, "path": c.models[ty].row.path}), v);
+        }
+        // mass lookup: "nothing for unknown symbols" over millions of random
+        // strings, every one looked up in every type through both entry
+        // points.  A lookup that compares a digest of the symbol instead of
+        // the symbol answers a foreign string once in 2^32 / (number of
+        // units) tries; only volume shows that.
+        let n: u64 = match tier {
+            Tier::Quick => 16_000_000,
+            Tier::Thorough => 100_000_000,
+        };
+        let (done, failure) = symbol_sweep(n);
+        let v = match failure {
+            Some((ty, sym, msg)) => {
+                sink.record(json!({"kind": "Symbol", "ty": ty, "symbol": sym}), Verdict::Fail(msg));
+                None
+            }
+            None => Some(pass("symbol-sweep", true)),
+        };
+        if let Some(v) = v {
+            sink.record(json!({"symbol_sweep": done, "types": all_types().len()}), v);
         }
         false
     }
